@@ -11,6 +11,17 @@ VERIF = os.path.dirname(os.path.dirname(os.path.abspath(__file__)))
 KNOWN_FILE = os.path.join(VERIF, 'known_findings.jsonl')
 
 
+def evidence_dir():
+    """evidence of runs against a scratch copy (VERIF_REPO set) never overwrites the real evidence"""
+    d = os.environ.get('VERIF_EVIDENCE_DIR')
+    if d:
+        return d
+    repo = os.environ.get('VERIF_REPO')
+    if repo and os.path.realpath(repo) != '/repo':
+        return os.path.join(repo, '.verif-evidence')
+    return os.path.join(VERIF, 'evidence')
+
+
 def load_known():
     out = []
     if os.path.exists(KNOWN_FILE):
@@ -140,7 +151,7 @@ class Check:
         stale = [k for key, k in kmap.items() if key not in seen]
         for k in stale:
             print('   note: listed known finding no longer reported: %s %s %s' % (k['rule'], k['construct'], k['detail']))
-        replay_dir = os.path.join(VERIF, 'evidence', 'replay')
+        replay_dir = os.path.join(evidence_dir(), 'replay')
         for f in viol:
             os.makedirs(replay_dir, exist_ok=True)
             h = hashlib.sha1(f.keystr().encode()).hexdigest()[:10]
@@ -177,13 +188,14 @@ class Check:
                 'tables': self.tables,
                 'notes': self.notes,
                 'tree': idx.stats() if idx is not None else {},
+                'selftest': getattr(self, 'selftest', None),
             },
             'assumptions': self.assumptions,
             'wall_s': round(wall, 3),
             'violations': len(viol),
         }
-        os.makedirs(os.path.join(VERIF, 'evidence'), exist_ok=True)
-        with open(os.path.join(VERIF, 'evidence', '%s.json' % self.pid), 'w') as fh:
+        os.makedirs(evidence_dir(), exist_ok=True)
+        with open(os.path.join(evidence_dir(), '%s.json' % self.pid), 'w') as fh:
             json.dump(ev, fh, indent=1, sort_keys=True, default=str)
         print('   %s: %d violation(s), %d known finding(s), %.2fs' % (
             'FAIL' if viol else 'ok', len(viol), len(knownhits), wall))
@@ -195,6 +207,15 @@ def run_check(pid, title, fn, tier):
     ck = Check(pid, tier, title)
     try:
         idx = fn(ck)
+        if tier == 'thorough' and not os.environ.get('VERIF_SELFTEST_CHILD'):
+            from .selftest import run as st_run, report as st_report
+            results = st_run(pid)
+            bad, stale = st_report(results, pid)
+            ck.selftest = [{'name': r[1], 'kind': r[2], 'result': r[3], 'detail': r[4]} for r in results]
+            ck.note('self-test: %d corpus entries (%d mutants must fire, %d benign twins must stay silent), %d stale, %d failed'
+                    % (len(results), sum(1 for r in results if r[2] == 'mutant'), sum(1 for r in results if r[2] == 'twin'), len(stale), len(bad)))
+            if bad:
+                raise AnalysisError('self-test failed for %s' % ', '.join(r[1] for r in bad))
         return ck.finish(idx)
     except AnalysisError as e:
         print('ANALYSIS-ERROR property=%s %s' % (pid, e))
